@@ -22,7 +22,7 @@ func (C09) Runs(t core.Tier) int {
 	if t == core.Thorough {
 		return 2_500_000
 	}
-	return 60_000
+	return 80_000
 }
 func (C09) Rule() string {
 	return "One run = one generated session (prelude + generated pure/proc/generator definitions + 1..8 top-level statements of every statement form, REPL or script flavour, optional injected aborts and data-driven errors) with the conservation invariant (sp back to its value before the statement, frame depth = closure depth = live contexts = 0, main ip = len(CS)) checked after every statement; 1 run in 4 instead runs the growth clause: the same inline loop body under n and 2n iterations in twin sessions must reach the same maximum sp in every context and the same stack length, and re-submitting a statement must not grow the stack. Non-trivial = some statement executed a loop with >= 3 context switches or iterations, or a cancellation/abort fired. Distinct = distinct hash of (statement shapes with numerals collapsed, fault plan, context-switch trace)."
